@@ -4,7 +4,7 @@
     repair); hash layer parametric in the hash function [H]. *)
 From Coq Require Import List Bool Arith NArith.
 From Verif Require Import Trie.Model Trie.Basics Trie.Masc Trie.GetUpdate Trie.Canon Trie.History Trie.HashBind
-  Trie.Store Trie.StoreProofs.
+  Trie.Store Trie.StoreProofs Trie.F1.
 Import ListNotations.
 
 (** Map semantics of one Update: Get of any key returns the batch's value for it (None for
@@ -136,3 +136,16 @@ Theorem C10_reopen_equal :
   open_root (commit H s t ++ s') (root H 256 t) = Some t \/ hash_break H.
 Proof. exact reopen_after_commit. Qed.
 Print Assumptions C10_reopen_equal.
+
+(** F1, for the record (repaired in /repo): the loop without the [break] is not the abstract
+    merge — for the shortcut key s and the sorted batch [a; s := DefaultLeaf; b] it returns
+    the keys [a; b; a; s; s; b]; the repaired loop and the abstract merge return [a; b]. *)
+Theorem C10_f1_unrepaired_loop_refuted :
+  let a := [false; true] in let s := [true; false] in let b := [true; true] in
+  let batch : batch nat := [(a, Some 1); (s, None); (b, Some 3)] in
+  sorted batch /\
+  masc_old s 7 batch = [(a, Some 1); (b, Some 3); (a, Some 1); (s, None); (s, Some 7); (b, Some 3)] /\
+  masc s 7 batch = [(a, Some 1); (b, Some 3)] /\
+  add_shortcut s 7 batch = [(a, Some 1); (b, Some 3)].
+Proof. exact f1_witness. Qed.
+Print Assumptions C10_f1_unrepaired_loop_refuted.
